@@ -202,10 +202,17 @@ class Container:
             return list(self.pkg_inputs)
         return list(self.cwd_inputs or self.pkg_inputs)
 
-    def build_hash(self):
-        src = {"atlas": "query.cxx"}.get(self.backend, "Analyzer.cc")
-        with open(os.path.join(self.root, "scripts", src), "rb") as f:
+    def _h(self, name):
+        with open(os.path.join(self.root, "scripts", name), "rb") as f:
             return hashlib.sha256(f.read()).hexdigest()[:16]
+
+    def build_hash(self):
+        if self.backend == "atlas":
+            return self._h("query.cxx")
+        return self._h("Analyzer.cc") + "+" + self._h("BuildFile.xml")
+
+    def cfg_hash(self):
+        return None if self.backend == "atlas" else self._h("analyzer_cfg.py")
 
     def resolve(self, p):
         """Arguments in a case use container paths ('/out2/x.root'); on disk they live under root."""
@@ -263,13 +270,15 @@ def read_output(path):
         return None
     with open(path, errors="replace") as f:
         lines = [ln.rstrip("\n") for ln in f]
-    d = {"token": None, "build": None, "inputs": [], "complete": bool(lines) and lines[-1] == "end",
+    d = {"token": None, "build": None, "cfg": None, "inputs": [], "complete": bool(lines) and lines[-1] == "end",
          "converted": "converted" in lines}
     for ln in lines:
         if ln.startswith("token="):
             d["token"] = ln[6:]
         elif ln.startswith("build="):
             d["build"] = ln[6:]
+        elif ln.startswith("cfg="):
+            d["cfg"] = ln[4:]
         elif ln.startswith("input="):
             d["inputs"].append(ln[6:])
     return d
@@ -480,6 +489,8 @@ def check_invocation(cont, model, args, res, pre_dest, dpath, fault_fired, viols
                 V("success-delivers-this-run", "output was produced by a different build than the previous build of this directory")
             if pf["compile"] and post["build"] != cont.build_hash():
                 V("success-delivers-this-run", "output was not produced from the package's current source")
+            if b != "atlas" and post["cfg"] != cont.cfg_hash():
+                V("success-delivers-this-run", "the job did not run with the package's configuration file")
             if b != "atlas" and not post["converted"]:
                 V("success-delivers-this-run", "CMS output was not passed through the tree-copy macro")
     # progress once faults stop: a valid fault-free invocation whose precondition holds must succeed
